@@ -15,9 +15,9 @@
 package netpoll
 
 import (
-	"unsafe"
 	"runtime"
 	"sync/atomic"
+	"unsafe"
 )
 
 // FDOperator is a collection of operations on file descriptors.
